@@ -36,10 +36,12 @@ def main(argv):
                 ("MC_Compress", "Neg_Compress_absolute.cfg"), ("MC_Store", "Neg_Store_concat.cfg"),
                 ("MC_Store", "Neg_Store_overwrite.cfg"), ("MC_Mdns", "Neg_Mdns_pinned.cfg"), ("MC_Sink", "Neg_Sink_seekend.cfg"),
                 ("MC_Discovery", "Neg_Discovery_keeplater.cfg"), ("MC_Discovery", "Neg_Discovery_portless.cfg"),
-                ("MC_Discovery", "Neg_Discovery_shortttl.cfg"), ("MC_Discovery", "Neg_Discovery_asyncbye.cfg")]
+                ("MC_Discovery", "Neg_Discovery_shortttl.cfg"), ("MC_Discovery", "Neg_Discovery_asyncbye.cfg"),
+                ("MC_Discovery", "Neg_Discovery_lostfirst.cfg"),
+                ("MC_DiscoveryLive", "Neg_DiscoveryLive_lossy.cfg"), ("MC_DiscoveryLive", "Neg_DiscoveryLive_async.cfg")]
         for mod, cfg in negs:
             rc, out = chk.tlc(mod + ".tla", os.path.join(chk.SPEC, cfg), os.path.join(wd, "md_" + cfg), 4, 600)
-            refuted = "is violated" in out
+            refuted = "is violated" in out or "was violated" in out
             chk.log(f"selftest: {cfg}: {'refuted by TLC (as it must be)' if refuted else 'NOT refuted'}")
             bad += 0 if refuted else 1
 
